@@ -225,6 +225,14 @@ def canonical(events, targets):
 
 # ------------------------------------------------------------------ scenarios
 
+def fname(r):
+    """file name of resource `r`; resource 7 has a name that is valid but leaves no room for the
+    prefix of the temporary file (`._<32 hex>_`) of an atomic save"""
+    if r == 7:
+        return "L" * 225 + ".json"
+    return "r%d.json" % r
+
+
 def _mk(ns, cls_name):
     return getattr(ns.json_mod, cls_name)
 
@@ -237,7 +245,7 @@ def scenarios(ns):
     sc = {}
 
     def path(d, r):
-        return os.path.join(d, "r%d.json" % r)
+        return os.path.join(d, fname(r))
 
     def s_setitem(cls_name, wc=False, threads=True, short=False):
         def run(d):
@@ -254,6 +262,16 @@ def scenarios(ns):
     old0 = {"old": list(range(30)), "pad": "y" * 50}
     sc["dict_default"] = dict(files={0: old0}, run=s_setitem("JSONDict"), atomic=True)
     sc["dict_default_fresh"] = dict(files={0: None}, run=s_setitem("JSONDict"), atomic=True)
+
+    def s_longname(d):
+        # an atomic save whose temporary file cannot be created (name too long): the save fails
+        # (OSError) - and whatever it does instead must still leave the file complete
+        x = _mk(ns, "JSONDict")(filename=path(d, 7))
+        try:
+            x["new"] = big
+        except OSError:
+            pass
+    sc["dict_default_longname"] = dict(files={7: old0}, run=s_longname, atomic=True, no_followup=True)
     sc["dict_default_shorter"] = dict(files={0: old0}, run=s_setitem("JSONDict", short=True), atomic=True)
     sc["dict_write_concern_nothreads"] = dict(files={0: old0}, run=s_setitem("JSONDict", wc=True, threads=False), atomic=True)
     sc["attrdict_default"] = dict(files={0: old0}, run=s_setitem("JSONAttrDict"), atomic=True)
@@ -316,7 +334,7 @@ def scenarios(ns):
 def setup_files(d, files):
     for r, content in files.items():
         if content is not None:
-            with open(os.path.join(d, "r%d.json" % r), "wb") as f:
+            with open(os.path.join(d, fname(r)), "wb") as f:
                 f.write(json.dumps(content).encode())
 
 
@@ -324,7 +342,7 @@ def read_files(d, files):
     out = {}
     for r in files:
         try:
-            with open(os.path.join(d, "r%d.json" % r), "rb") as f:
+            with open(os.path.join(d, fname(r)), "rb") as f:
                 out[r] = f.read()
         except FileNotFoundError:
             out[r] = None
@@ -364,7 +382,7 @@ def trace_scenario(ns, name, sc, d):
         tr = Tracer()
         with tr:
             sc["run"](d)
-        targets = [os.path.join(d, "r%d.json" % r) for r in sorted(sc["files"])]
+        targets = [os.path.join(d, fname(r)) for r in sorted(sc["files"])]
         tr.active = False
         lines, tmps = canonical(tr.events, targets)
         with open(res_path, "wb") as f:
